@@ -334,6 +334,7 @@ func (idx *IVFIndex) Remove(vector VectorNode) error {
 	}
 	alreadyDeleted := idx.deletedNodes.Contains(id)
 	idx.mu.RUnlock()
+	verifPoint("ivf:remove:window")
 
 	// Fast-fail validation outside of write lock
 	if !exists {
